@@ -207,7 +207,11 @@ func (cs *Contracts) LoadContractFile(path string, pkgShort string) error {
 				txt = strings.TrimSpace(txt[j+1:])
 			}
 		}
-		e, err := parseExprSrc(txt)
+		ptxt := txt
+		if r.kw == "modifies" && strings.HasSuffix(ptxt, ".*") {
+			ptxt = strings.TrimSuffix(ptxt, ".*")
+		}
+		e, err := parseExprSrc(ptxt)
 		if err != nil {
 			return Clause{}, fmt.Errorf("%s:%d: %v", path, r.line, err)
 		}
